@@ -142,12 +142,12 @@ prop("C16",
 
 prop("C12",
      trusted_base=["Kernel/Proc.lean: a pid namespace's process forest for reaping (kill(-1) from init kills every other process; orphans are reparented to init; wait4(-1) loop until ECHILD)",
-                   "extracted facts (Gen.C12): every path through handleExecveStarted (sequence of calls/sends), the defers of handleExecve, the close-after-send in the container's sendLoop"],
+                   "extracted facts (Gen.C12): every path through handleExecveStarted (sequence of calls/sends), the defers of handleExecve, the close-after-send in the container's sendLoop, every path through Builder.Build (C12_gen_build_cleans_up), every path through one iteration of waitLoop and the capacities of the hand-off channels (used by C10's server/reaper model, whose balanced state includes 'init has no child')"],
      assumptions=["kernel reaping/reparenting rules as modelled; SIGKILL cannot be ignored",
                   "ptrace runner: the caller's policy refuses setsid/setpgid (stated in the property); the harness uses such a policy",
                   "descriptor, child and goroutine counts of the host and of the init are explored by the harness over histories, not proved"],
      not_covered="the Go runtime's goroutine lifetimes are only observed (NumGoroutine back at baseline)",
-     level_text="Theorem for every process forest (any depth, fan-out, orphans): after init's kill(-1,SIGKILL) and the wait-until-ECHILD loop no child of init remains; extracted-code theorem that every path of a started Execve issues the kill and the wait-all request and that received/opened descriptors are closed; soak over histories of hostile programs in all three runners with descriptor/child/goroutine baselines of the host and of the container init",
+     level_text="Theorem for every process forest (any depth, fan-out, orphans): after init's kill(-1,SIGKILL) and the wait-until-ECHILD loop no child of init remains; extracted-code theorem that every path of a started Execve issues the kill and the wait-all request and that received/opened descriptors are closed; every failing path of Builder.Build destroys the container it started (one defect repaired: fix 1f2e1e4); soak over histories of hostile programs in all three runners with descriptor/child/goroutine baselines of the host and of the container init",
      level_note="PARTIAL: proof about the model's reaping handshake + exploration for the runtime counts. Trusted: Lean kernel, process-forest model, extractor",
      technique="Lean 4 proof by induction over process forests + extracted-code path facts + soak exploration",
      timeout={"quick": 1500, "thorough": 7200})
@@ -187,14 +187,14 @@ prop("C13",
 
 prop("C20",
      trusted_base=["hand model Model/Cgroup.lean: ownership over histories (`ostep`: one atomic mkdir per directory, Destroy's loop, external mkdir/rmdir), the two-creator stat/mkdir interleaving system, cpu.stat parsing",
-                   "Go-lite runs of the regenerated V2.CPUUsage, EnsureDirExists, V1.Destroy, V1.AddProc, (*V2).New, (*V2).Nest and newV2 (Gen.C20; newV2 without its deferred clean-up, which runs on error paths only)",
+                   "Go-lite runs of the regenerated V2.CPUUsage, EnsureDirExists, V1.Destroy, V1.AddProc, (*V1).New (with references to fields: `&v1.cpu`, `*v.new = ...`), (*V2).New, (*V2).Nest and newV2 (Gen.C20; newV2 without its deferred clean-up, which runs on error paths only)",
                    "tie: histories replayed on the REAL cgroup v1 hierarchies and on a real cgroup2 mount in a private mount namespace, compared with `ostep` (Existing(), directories removed) and with an independent bookkeeping oracle; 16-way concurrent creators; parsers on crafted files vs the regenerated code"],
      assumptions=["mkdir(2)/rmdir(2) are atomic; nobody outside removes a group a live handle created (external removals only of groups no handle made)",
                   "a handle is not used after Destroy (a second Destroy would rmdir the path again)",
                   "usage_usec*1000 < 2^64 (584 years of CPU time) — the uint64 result wraps beyond",
                   "the v2 hierarchy of this machine has no controllers delegated: v2 limit files are covered by crafted directories (hook VerifNewV2At), not by the kernel"],
      not_covered="kernel cgroup accounting itself; v2 limit enforcement by the kernel (no controllers on this machine's cgroup2)",
-     level_text="Theorems for every history of mkdirs (arbitrarily interleaved creators), Destroys and external changes: every directory a Destroy removes was made by that very handle, never a pre-existing one; live handles never share a created directory; a handle on an existing group removes nothing; every interleaving of two concurrent creators has exactly one creator with the atomic mkdir (and a double-owner witness for the pinned stat-then-MkdirAll); any CPU value returned is 1000 x a usage_usec field; regenerated Destroy/EnsureDirExists/AddProc facts by kernel evaluation; a cpuset that is set is never overwritten when a group is opened again (theorem on the hand model for every tree; the regenerated initCpuset/copyCgroupPropertyFromParent compute that model on seven trees); differential on real v1 and v2 hierarchies with a ledger of every limit written, re-checked after every later operation",
+     level_text="Theorems for every history of mkdirs (arbitrarily interleaved creators), Destroys and external changes: every directory a Destroy removes was made by that very handle, never a pre-existing one; live handles never share a created directory; a handle on an existing group removes nothing; every interleaving of two concurrent creators has exactly one creator with the atomic mkdir (and a double-owner witness for the pinned stat-then-MkdirAll); any CPU value returned is 1000 x a usage_usec field; regenerated Destroy/EnsureDirExists/AddProc facts by kernel evaluation; the regenerated (*V1).New on every subset of already existing controller directories (created = what its own mkdirs made; New then Destroy removes nothing that was there before); a cpuset that is set is never overwritten when a group is opened again (theorem on the hand model for every tree; the regenerated initCpuset/copyCgroupPropertyFromParent compute that model on seven trees); differential on real v1 and v2 hierarchies with a ledger of every limit written, re-checked after every later operation",
      level_note="Trusted: Lean kernel; hand model tied by differential on the real hierarchies; kernel mkdir/rmdir atomicity assumed. Three defects repaired (fix: commits)",
      technique="Lean 4 proofs by induction over operation histories + exhaustive interleaving exploration (decide) + Go-lite on regenerated code + differential on real cgroup hierarchies",
      timeout={"quick": 900, "thorough": 3600})
